@@ -23,7 +23,7 @@ typedef struct { uint32_t cob; uint8_t type, count; uint32_t map[8]; } MP;      
 static struct { uint8_t op, stopped; MP p[2]; } M;                                         /* p[0] RPDO #PN, p[1] TPDO #PN */
 /* cfg selects the number PN of the RPDO/TPDO pair under reconfiguration; the other three pairs are valid bystanders (one 16-bit object
  * each) that must keep working as configured whatever is written to pair PN - index arithmetic 14xxh/16xxh/18xxh/1Axxh + n */
-static int PN;
+static int PN, INHIBIT_CFG;
 #define STOPPED M.stopped
 static const uint32_t COBASE[2] = { 0x00000201u, 0x40000181u };
 #define COB0(pdo) (COBASE[pdo] + 0x100u * (uint32_t)PN)
@@ -33,13 +33,13 @@ static const uint32_t COBASE[2] = { 0x00000201u, 0x40000181u };
 #define K_CNT0 9
 #define K_MAP0 (K_CNT0 + NCNT)
 #define K_FILL0 (K_MAP0 + 3 * NMAPV)
-enum { E_START = 2 * EPP, E_PREOP, E_STOP, E_N };
+enum { E_START = 2 * EPP, E_PREOP, E_STOP, E_SYNC, E_EVT3, E_N };      /* E_SYNC, E_EVT3: cfg 8, 9 only */
 static uint32_t idval(int pdo, int k)
 {
     uint32_t base = COB0(pdo);
     switch (k) { case 0: return base; case 1: return base | 0x80000000u; case 2: return base + 0x010; case 3: return (base + 0x010) | 0x80000000u; case 4: return base | 0x20000000u | 0x80000000u; default: return (base & ~0x40000000u) | 0x80000000u | (pdo ? 0 : 0x20000000u); }
 }
-static const char *cfg_name(int c) { static char b[64]; snprintf(b, sizeof b, "PDO pair #%d%s, %s", c < 2 ? 0 : c < 4 ? 1 : c < 6 ? 3 : 1, c >= 6 ? " (both synchronous)" : "", c & 1 ? "started OPERATIONAL" : "PRE-OPERATIONAL"); return b; }
+static const char *cfg_name(int c) { static char b[64]; snprintf(b, sizeof b, "PDO pair #%d%s, %s", c < 2 ? 0 : c < 4 ? 1 : c < 6 ? 3 : 1, c >= 8 ? " (both synchronous, TPDO with inhibit time; SYNC and 18xxh:5 writes in the histories)" : c >= 6 ? " (both synchronous)" : "", c & 1 ? "started OPERATIONAL" : "PRE-OPERATIONAL"); return b; }
 
 static int build(int cfg)
 {
@@ -54,6 +54,8 @@ static int build(int cfg)
     }
     NC.tpdo[PN].event = 2;
     if (sync0) { NC.rpdo[PN].type = 1; NC.tpdo[PN].type = 1; }
+    INHIBIT_CFG = cfg >= 8;
+    if (cfg >= 8) NC.tpdo[PN].inhibit = 20;     /* 2 ms: every transmission of the TPDO under reconfiguration opens an inhibit window, and the histories write 18xxh:5 inside it */
     NC.operational = cfg & 1;
     nc_build();
     (void)CONodeGetErr(&Node);
@@ -61,13 +63,13 @@ static int build(int cfg)
     M.op = (uint8_t)(cfg & 1);
     for (int i = 0; i < 2; i++) { M.p[i].cob = COB0(i); M.p[i].type = (uint8_t)(sync0 ? 1 : i ? 254 : 255); M.p[i].count = 1; M.p[i].map[0] = M8; }
     W_REG(M);
-    return E_N;
+    return cfg >= 8 ? E_N : E_N - 2;
 }
 
 static const char *ev_name(int e)
 {
     static char b[64];
-    if (e >= E_START) return e == E_START ? "NMT start" : e == E_PREOP ? "NMT pre-op" : "NMT stop";
+    if (e >= E_START) return e == E_START ? "NMT start" : e == E_PREOP ? "NMT pre-op" : e == E_STOP ? "NMT stop" : e == E_SYNC ? "SYNC" : "SDO 18xxh:5=3 (accepted at any time)";
     int pdo = e / EPP, k = e % EPP; uint16_t com = (uint16_t)((pdo ? 0x1800 : 0x1400) + PN), map = (uint16_t)((pdo ? 0x1A00 : 0x1600) + PN);
     if (k < 6) snprintf(b, sizeof b, "SDO %04Xh:1=%08X", com, idval(pdo, k));
     else if (k < 9) snprintf(b, sizeof b, "SDO %04Xh:2=%d", com, TYPV[k - 6]);
@@ -154,6 +156,7 @@ static void probe_time(const char *when)
     if (!clean(p) || p->count == 0) return;
     if (!snap) snap = malloc(w_snap_size());
     w_save(snap);
+    if (INHIBIT_CFG) for (int k = 0; k < 3; k++) w_tick(&Node, 1);     /* a transmission that waits for the end of a running inhibit time (2 ms) is not judged */
     OBS.ntx = 0; OBS.ncb = 0;
     for (int k = 0; k < 8; k++) w_tick(&Node, 1);
     n = nc_count_tx(p->cob & 0x7FF);
@@ -165,6 +168,12 @@ static void probe_time(const char *when)
         w_rx(&Node, 0x80, 0, none);
         n = nc_count_tx(p->cob & 0x7FF);
         if (n != 1) mc_fail("pdo-activation-differs", "%s: TPDO #%d is stored valid with type 1 but a SYNC produces %d frame(s) of it", when, PN, n);
+    } else if (p->type >= 254) {                   /* ... and an event-driven TPDO has no business with SYNC: a slot of the SYNC table that an earlier synchronous activation left behind shows here */
+        uint8_t none[8] = { 0 };
+        OBS.ntx = 0; OBS.ncb = 0;
+        w_rx(&Node, 0x80, 0, none);
+        n = nc_count_tx(p->cob & 0x7FF);
+        if (n != 0) mc_fail("pdo-activation-differs", "%s: TPDO #%d is stored as event-driven (type %d) but a SYNC produces %d frame(s) of it", when, PN, p->type, n);
     }
     w_restore(snap);
     OBS.ntx = 0; OBS.ncb = 0;
@@ -245,7 +254,9 @@ static int step(int e)
         else if (valid(&M.p[1])) probe_time("NMT start while OPERATIONAL"); }
     else if (e == E_PREOP) { M.op = 0; STOPPED = 0; nc_nmt(128, 0); }
     else if (e == E_STOP) { M.op = 0; STOPPED = 1; nc_nmt(2, 0); }        /* entering OPERATIONAL from STOPPED activates the stored configuration like any other entry */
+    else if (e == E_SYNC) { uint8_t none[8] = { 0 }; w_rx(&Node, 0x80, 0, none); }                 /* what is sent on it is C12's business; here it opens the inhibit window */
     else if (STOPPED) return MC_SKIP;                                    /* no SDO service in STOPPED */
+    else if (e == E_EVT3) { uint32_t r = nc_sdo_write((uint16_t)(0x1800 + PN), 5, 3, 2); if (r != 0) mc_fail("pdo-write-refused", "write of the event time 18%02Xh:5 refused with %08X", PN, r); }
     else {
         int pdo = e / EPP, k = e % EPP;
         if (k >= K_FILL0) {                               /* macro: the eight entry writes one after the other, each judged */
@@ -269,5 +280,5 @@ static int step(int e)
     return MC_OK;
 }
 
-static const mc_harness H = { "C14", "c14", 8, cfg_name, build, ev_name, step, 12, 5 };
+static const mc_harness H = { "C14", "c14", 10, cfg_name, build, ev_name, step, 12, 5 };
 int main(int argc, char **argv) { return mc_main(argc, argv, &H); }
